@@ -782,10 +782,13 @@ theorem lookupOracle_of_coupled {P : Sketch → Prop} (L : SketchLaws P) {p : Pa
   | cons op rest ih =>
     intro s g hi hc
     obtain ⟨h1, h2⟩ := step_coupled L hq hsm hi hc op
-    simp only [run, lookupOracle, Bool.and_eq_true]
-    refine ⟨?_, ih _ _ (step_inv L hq hsm hi op) h2⟩
-    rw [List.all_eq_true] at h1 ⊢
-    exact fun kv hkv => himp g kv (h1 kv hkv)
+    simp only [run, lookupOracle]
+    split
+    · rfl
+    · simp only [Bool.and_eq_true]
+      refine ⟨?_, ih _ _ (step_inv L hq hsm hi op) h2⟩
+      rw [List.all_eq_true] at h1 ⊢
+      exact fun kv hkv => himp g kv (h1 kv hkv)
 
 theorem init_coupled (p : Params) : Coupled p {} {} :=
   ⟨rfl, fun k e hk => by simp at hk⟩
